@@ -190,7 +190,7 @@ def _expected_region_cn(desc, build, copies):
 
 
 # ----------------------------------------------------------------------------------------------------------------------
-def simulate(desc, build, alleles, structure, L, step, out_bam, rng, noise=None, sq_detect=True, background=None):
+def simulate(desc, build, alleles, structure, L, step, out_bam, rng, noise=None, sq_detect=True, background=None, paired=False):
     import pysam
     from gendb import allele_genome_variants
     bd = desc["builds"][build]
@@ -231,6 +231,20 @@ def simulate(desc, build, alleles, structure, L, step, out_bam, rng, noise=None,
                 k += 1
                 recs.append({"name": f"c{ci}_{k}", "start": c[0], "cigar": c[1], "seq": c[2], "mapq": 60, "qual": [40] * len(c[2]),
                              "origin": s})
+    if paired:
+        # read pairs: the read tiled at s and the read tiled at s + L of the same copy are the two mates of one fragment (one query name,
+        # flags first / second in pair); reads without a partner stay single
+        by = {}
+        for r in recs:
+            by.setdefault((r["name"].split("_")[0], r["origin"]), []).append(r)
+        used = set()
+        for (cp, s0), rs in sorted(by.items()):
+            if (cp, s0) in used or (cp, s0 + L) not in by or (cp, s0 + L) in used or len(rs) != 1 or len(by[(cp, s0 + L)]) != 1:
+                continue
+            a, b = rs[0], by[(cp, s0 + L)][0]
+            a["name"] = b["name"] = f"{cp}_p{s0}"
+            a["flag"], b["flag"] = 0x1 | 0x2 | 0x40, 0x1 | 0x2 | 0x80
+            used.update({(cp, s0), (cp, s0 + L)})
     if noise:
         recs = _apply_noise(recs, noise, rng)
     recs.sort(key=lambda r: (r["start"], r["name"]))
@@ -242,7 +256,7 @@ def simulate(desc, build, alleles, structure, L, step, out_bam, rng, noise=None,
         for r in recs:
             a = pysam.AlignedSegment(f.header)
             a.query_name = r["name"]
-            a.flag = 0
+            a.flag = r.get("flag", 0)
             a.reference_id = 0
             a.reference_start = r["start"]
             a.mapping_quality = r["mapq"]
